@@ -781,6 +781,12 @@ def check_case(ctx, lib, case, tags=()):
                     return lib.biom.load_table(back)
                 # list-valued metadata under a name HDF5 has no list formatter for is C01's business
                 file_md = cli_fmt == "json" or mdmode is None or fm_name == "naive" or mdmode["value"] == "taxonomy"
+                # plain text under one of the names HDF5 writes as a list of levels (taxonomy, KEGG_Pathways, ...) comes back
+                # from the file as a list, '' as None: "flat taxonomy text" is one of the out-of-domain inputs of C04's mdDomain —
+                # the file's IDs and grid are judged, its metadata is not (the table handed to the writer is judged in full)
+                if (cli_fmt != "json" and mdmode is not None and fm_name == "naive"
+                        and mdmode["value"] in ("taxonomy", "Taxonomy", "KEGG_Pathways", "collapsed_ids")):
+                    file_md = False
                 add(nm + ":table", view_cli, guarded(table_handed), True, pr_name, cli=True)
                 if writer_refused:
                     ctx.count("cli-output-file-not-writable:%s (table handed to the writer is judged)" % cli_fmt)
